@@ -478,7 +478,7 @@ def run_check(prop, jobs, tier, replay_fn=None, extra_assumptions=(), level_text
                     fh.write("property: %s\njob: %s\n%s\nfailing facts on the real object files:\n" % (prop, st["job"]["job"], st["job"].get("note", "")))
                     for v in st["violations"]:
                         fh.write("  " + v + "\n")
-                print("VIOLATION property=%s replay=%s" % (prop, rp))
+                print("VIOLATION property=%s replay=%s no-failing-input-found" % (prop, rp))    # a static fact about the code, no input involved
                 code = 1
         for (j, o) in undec:
             print("UNDECIDED property=%s job=%s reason=%s" % (prop, j.id, o["reason"]))
